@@ -9,7 +9,9 @@ package main
 // tag, authenticated header byte changed, sealed under another key, sealed under
 // the C2S key, genuine seal but another unique identifier, the response to the
 // client's previous request replayed byte for byte or with this request's origin
-// timestamp) before or instead of the genuine response, with and without a
+// timestamp, the bare 48-byte NTP response without any extension field, the same
+// with 1-3 junk bytes, header + identifier without authenticator, header +
+// authenticator without identifier) before or instead of the genuine response, with and without a
 // context deadline.  Every forged datagram but the byte-for-byte replay carries
 // the request's origin timestamp and sane NTP metadata, and server timestamps
 // that are shifted by (k+1)*1000 s for the k-th datagram, so the offset the
@@ -216,6 +218,18 @@ func (p *clPeer) build(r *lib.Rng, kind string, k int, ntpreq *ntp.Packet, ntsre
 	case "D":
 		b, cs := seal(c2s, uid, true)
 		return dgram{b: b, h: honestOf(b, c2s, 0, uid), cookies: cs}
+	case "B": // the bare 48-byte NTP response: no extension fields at all
+		return dgram{b: clone(hdr)}
+	case "J": // ... followed by 1-3 bytes of junk
+		return dgram{b: append(clone(hdr), r.Bytes(1+r.Intn(3))...)}
+	case "I": // header and unique identifier, no authenticator
+		f := append([]byte{0x01, 0x04, 0x00, byte(4 + len(uid))}, uid...)
+		return dgram{b: append(clone(hdr), f...)}
+	case "A": // header and an authenticator sealed under the S2C key, no unique identifier
+		nonce := r.Bytes(16)
+		ct := ownSeal(s2c, nonce, nil, hdr)
+		f := append([]byte{0x04, 0x04, 0x00, 40, 0x00, 16, 0x00, 16}, nonce...)
+		return dgram{b: append(clone(hdr), append(f, ct...)...)}
 	case "R", "P":
 		if prev != nil {
 			b := clone(prev.b)
@@ -440,7 +454,7 @@ func newSCIONClient(p *clPeer) *clientUT {
 		store: func() [][]byte { return c.Auth.NTSKEFetcher.VerifData().Cookie }}
 }
 
-var forgedKinds = []string{"T", "H", "K", "D", "U", "R", "P"}
+var forgedKinds = []string{"T", "H", "K", "D", "U", "R", "P", "B", "J", "I", "A"}
 
 func clientCases(r *lib.Rng, thorough bool) {
 	p := getPeer(r.U64())
